@@ -1,6 +1,6 @@
 (* C17 — property theorems only (statements + [exact]); proofs are in Proofs.v. *)
 From Coq Require Import List NArith Bool Permutation Sorted.
-From V.C17 Require Import Model Proofs.
+From V.C17 Require Import Model Proofs Crash.
 Import ListNotations.
 Local Open Scope N_scope.
 
@@ -282,6 +282,47 @@ Example C17_example :
   pack f (fun _ => 0) 200 s = [b0; a0; a1; g] /\ pack f (fun _ => 0) 2 s = [b0; a0] /\
   pack f (fun a => if a =? 1 then 1 else 0) 200 s = [b0; a0; a1; g].
 Proof. vm_compute. repeat split; reflexivity. Qed.
+
+(* The chain <-> pool protocol across process death (Crash.v: the writes of insertBlock / remove restricted to
+   marks, head record and the pool's executed store, in the code's order; a crash keeps any prefix; the
+   restart runs ensureChainConsistency over a pool with an empty pending list).  [good] = the executed
+   store holds exactly the transactions of the canonical chain and no mark is left.
+   Inserting a block whose transactions are not executed yet, killed after ANY number of its writes: good
+   again after the restart. *)
+Theorem C17_crash_insert_safe : forall s b m,
+  good s -> (forall h, In h (btxs b) -> ~ In h (execs s)) -> (forall x, In x (chainc s) -> bid x <> bid b) ->
+  good (crash_restart s (insert_writes b) m).
+Proof. exact insert_crash_safe. Qed.
+Print Assumptions C17_crash_insert_safe.
+
+(* Removing the head block (reorg), killed after any number of its writes: good again after the restart. *)
+Theorem C17_crash_remove_safe : forall c b e m,
+  let s := mkCst (b :: c) None None e in
+  good s -> (forall h, In h (btxs b) -> ~ on_chain c h) -> (forall x, In x c -> bid x <> bid b) ->
+  good (crash_restart s (remove_writes b) m).
+Proof. exact remove_crash_safe. Qed.
+Print Assumptions C17_crash_remove_safe.
+
+(* What good means for the restarted pool: a transaction of a canonical block is refused by add (pool
+   unchanged), any other transaction is admitted and pending. *)
+Theorem C17_crash_pool : forall lim s t,
+  good s -> 0 < lim ->
+  (on_chain (chainc s) (thash t) -> add lim (pool_of s) t = (pool_of s, AErrExist)) /\
+  (~ on_chain (chainc s) (thash t) ->
+     snd (add lim (pool_of s) t) = AOk /\ In t (received (fst (add lim (pool_of s) t)))).
+Proof. exact good_pool. Qed.
+Print Assumptions C17_crash_pool.
+
+(* The order matters: if the pool is told only after the add mark has been erased, a crash in between
+   leaves the block as canonical head, nothing to repair, and its transaction admissible again. *)
+Theorem C17_crash_late_order_refuted : exists s0 b m t,
+  let s := crash_restart s0 (insert_writes_late b) m in
+  good s0 /\ chainc s = [b] /\ addm s = None /\ rmm s = None /\ on_chain (chainc s) (thash t) /\
+  ~ In (thash t) (execs s) /\ snd (add 10 (pool_of s) t) = AOk.
+Proof.
+  exists (mkCst [] None None []), (mkB 1 [5]), 3%nat, (mkTx 5 1 0 0). exact late_order_refuted.
+Qed.
+Print Assumptions C17_crash_late_order_refuted.
 
 (* Non-vacuity of the schedule theorems: on the locked steps the schedule that broke the unlocked code makes
    the MarkExecuted wait (its first LMarkW is a blocked step), and ends executed-only; a mid-MarkExecuted
